@@ -113,6 +113,10 @@ HllArray<A>* HllArray<A>::newHll(const void* bytes, size_t len, const A& allocat
 
   const uint8_t lgK = data[hll_constants::LG_K_BYTE];
   const uint8_t curMin = data[hll_constants::HLL_CUR_MIN_BYTE];
+  HllUtil<A>::checkLgK(lgK);
+  if (curMin > 63) {
+    throw std::invalid_argument("Possible corruption: invalid curMin: " + std::to_string(curMin));
+  }
 
   const uint32_t arrayBytes = hllArrBytes(tgtHllType, lgK);
   if (len < static_cast<size_t>(hll_constants::HLL_BYTE_ARR_START + arrayBytes)) {
@@ -127,6 +131,7 @@ HllArray<A>* HllArray<A>::newHll(const void* bytes, size_t len, const A& allocat
   uint32_t numAtCurMin, auxCount;
   std::memcpy(&numAtCurMin, data + hll_constants::CUR_MIN_COUNT_INT, sizeof(int));
   std::memcpy(&auxCount, data + hll_constants::AUX_COUNT_INT, sizeof(int));
+  checkCounts(tgtHllType, lgK, numAtCurMin, auxCount, data + hll_constants::HLL_BYTE_ARR_START);
 
   AuxHashMap<A>* auxHashMap = nullptr;
   typedef std::unique_ptr<AuxHashMap<A>, std::function<void(AuxHashMap<A>*)>> aux_hash_map_ptr;
@@ -183,6 +188,10 @@ HllArray<A>* HllArray<A>::newHll(std::istream& is, const A& allocator) {
 
   const uint8_t lgK = listHeader[hll_constants::LG_K_BYTE];
   const uint8_t curMin = listHeader[hll_constants::HLL_CUR_MIN_BYTE];
+  HllUtil<A>::checkLgK(lgK);
+  if (curMin > 63) {
+    throw std::invalid_argument("Possible corruption: invalid curMin: " + std::to_string(curMin));
+  }
 
   HllArray* sketch = HllSketchImplFactory<A>::newHll(lgK, tgtHllType, startFullSizeFlag, allocator);
   typedef std::unique_ptr<HllArray<A>, std::function<void(HllSketchImpl<A>*)>> hll_array_ptr;
@@ -202,7 +211,10 @@ HllArray<A>* HllArray<A>::newHll(std::istream& is, const A& allocator) {
   sketch->putNumAtCurMin(numAtCurMin);
   
   read(is, sketch->hllByteArr_.data(), sketch->getHllByteArrBytes());
-  
+  if (!is.good())
+    throw std::runtime_error("error reading from std::istream");
+  checkCounts(tgtHllType, lgK, numAtCurMin, auxCount, sketch->hllByteArr_.data());
+
   if (auxCount > 0) { // necessarily TgtHllType == HLL_4
     uint8_t auxLgIntArrSize = listHeader[4];
     AuxHashMap<A>* auxHashMap = AuxHashMap<A>::deserialize(is, lgK, auxCount, auxLgIntArrSize, comapctFlag, allocator);
@@ -213,6 +225,27 @@ HllArray<A>* HllArray<A>::newHll(std::istream& is, const A& allocator) {
     throw std::runtime_error("error reading from std::istream"); 
 
   return sketch_ptr.release();
+}
+
+// counters of an image must be consistent with its register array before anything is sized or dereferenced from them:
+// numAtCurMin <= K; an aux map only for HLL_4, with exactly one entry per AUX_TOKEN nibble
+template<typename A>
+void HllArray<A>::checkCounts(target_hll_type tgtHllType, uint8_t lgK, uint32_t numAtCurMin, uint32_t auxCount, const uint8_t* hllBytes) {
+  const uint32_t configK = 1 << lgK;
+  if (numAtCurMin > configK) {
+    throw std::invalid_argument("Possible corruption: numAtCurMin exceeds K: " + std::to_string(numAtCurMin));
+  }
+  uint32_t numTokens = 0;
+  if (tgtHllType == HLL_4) {
+    for (uint32_t i = 0; i < hll4ArrBytes(lgK); ++i) {
+      if ((hllBytes[i] & hll_constants::loNibbleMask) == hll_constants::AUX_TOKEN) ++numTokens;
+      if ((hllBytes[i] >> 4) == hll_constants::AUX_TOKEN) ++numTokens;
+    }
+  }
+  if (auxCount != numTokens) {
+    throw std::invalid_argument("Possible corruption: aux count " + std::to_string(auxCount)
+        + " does not match the number of exception slots " + std::to_string(numTokens));
+  }
 }
 
 template<typename A>
